@@ -41,17 +41,6 @@ Proof.
   now rewrite w16_be16_eq.
 Qed.
 
-(* every non-zero field has its bit in the format *)
-Definition vr_covers (fmt : N) (v : option vrec) : Prop :=
-  match v with
-  | None => True
-  | Some r =>
-    (v_xp r <> 0%Z -> fbit fmt 0 = true) /\ (v_yp r <> 0%Z -> fbit fmt 1 = true) /\
-    (v_xa r <> 0%Z -> fbit fmt 2 = true) /\ (v_ya r <> 0%Z -> fbit fmt 3 = true) /\
-    (v_xpd r <> 0 -> fbit fmt 4 = true) /\ (v_ypd r <> 0 -> fbit fmt 5 = true) /\
-    (v_xad r <> 0 -> fbit fmt 6 = true) /\ (v_yad r <> 0 -> fbit fmt 7 = true)
-  end.
-
 Lemma of_i16_lt z : of_i16 z < 65536.
 Proof. unfold of_i16. lia. Qed.
 
@@ -357,8 +346,6 @@ Qed.
 (* ------------------------------------------------------------------ *)
 (* GSUB 1.2                                                            *)
 
-Definition gids_ok (l : list N) : Prop := Forall (fun x => x < 65536) l.
-
 Lemma gsub12_len_agrees gl subst b :
   glyphs_ok gl = true -> M_gsub12_encode (S_cov_table gl) subst = Ok b ->
   M_gsub12_len (S_cov_table gl) subst = Ok (lenN b).
@@ -508,8 +495,6 @@ Qed.
 
 (* ------------------------------------------------------------------ *)
 (* GSUB 2.1 and 3.1                                                    *)
-
-Definition seq_ok (s : list N) : Prop := gids_ok s /\ lenN s < 65536.
 
 Fixpoint seq_offs (seqs : list (list N)) (off : N) : list N :=
   match seqs with [] => [] | s :: r => off :: seq_offs r (off + 2 + 2 * lenN s) end.
